@@ -1,10 +1,172 @@
 import Driver.Common
+import RxModel.Vts
+import RxModel.VtsPeriodic
 open Lean Drv
 
 namespace DrvVts
+open Vts
 
-def handle (op : String) (_j : Json) : Except String Json := do
+def modeOfStr : String → Except String Mode
+  | "imm" => pure .imm
+  | "rel" => pure .rel
+  | "abs" => pure .abs
+  | s => throw s!"bad mode {s}"
+
+def viaOfStr : String → Except String Via
+  | "handed" => pure .handed
+  | "inner" => pure .inner
+  | "outer" => pure .outer
+  | s => throw s!"bad via {s}"
+
+/-- action = {"id": n, "steps": [step…], "raise": null | "name"};
+step = ["sched", via, mode, t, action] | ["cancel", id] | ["stop"] | ["sleep", t] -/
+partial def actOfJson (j : Json) : Except String (Nat × Act) := do
+  let id ← getNat j "id"
+  let steps ← getArr j "steps"
+  let last : Act := match j.getObjValAs? String "raise" with
+    | .ok e => .raise e
+    | .error _ => .done
+  let body ← steps.foldrM (init := last) fun st acc => do
+    match st with
+    | .arr #[.str "sched", .str via, .str m, t, child] =>
+      let (cid, c) ← actOfJson child
+      pure (Act.sched (← viaOfStr via) (← modeOfStr m) (← t.getInt?) cid c acc)
+    | .arr #[.str "cancel", i] => pure (Act.cancel (← i.getNat?) acc)
+    | .arr #[.str "stop"] => pure (Act.stop acc)
+    | .arr #[.str "sleep", t] => pure (Act.sleep (← t.getInt?) acc)
+    | _ => throw s!"bad step {st.compress}"
+  pure (id, body)
+
+/-- op = ["sched", wrapped, mode, t, action] | ["cancel", id] | ["start"] | ["stop"] | ["advance_to", t]
+| ["advance_by", t] | ["sleep", t] -/
+def opOfJson (j : Json) : Except String Op := do
+  match j with
+  | .arr #[.str "sched", .bool w, .str m, t, a] =>
+    let (id, body) ← actOfJson a
+    pure (.sched w (← modeOfStr m) (← t.getInt?) id body)
+  | .arr #[.str "cancel", i] => pure (.cancel (← i.getNat?))
+  | .arr #[.str "start"] => pure .start
+  | .arr #[.str "stop"] => pure .stop
+  | .arr #[.str "advance_to", t] => pure (.advanceTo (← t.getInt?))
+  | .arr #[.str "advance_by", t] => pure (.advanceBy (← t.getInt?))
+  | .arr #[.str "sleep", t] => pure (.sleep (← t.getInt?))
+  | _ => throw s!"bad op {j.compress}"
+
+def outToJson : Out → Json
+  | .ok => .str "ok"
+  | .raised e => Json.arr #[.str "raised", .str e]
+  | .stuck => .str "stuck"
+
+def num (i : Int) : Json := .num (JsonNumber.fromInt i)
+
+/-- PriorityQueue scripts over items `(prio, label)` compared by `prio` only:
+["enq", prio, label] | ["deq"] | ["peek"] | ["len"] | ["remove", prio] | ["clear"] -/
+def pqScript (ops : List Json) : Except String (List Json) := do
+  let due : (Int × Int) → Int := fun x => x.1
+  let mut q : PQ (Int × Int) := {}
+  let mut out : List Json := []
+  for o in ops do
+    match o with
+    | .arr #[.str "enq", p, l] =>
+      q := q.enqueue ((← p.getInt?), (← l.getInt?)); out := .null :: out
+    | .arr #[.str "deq"] =>
+      match q.dequeue? due with
+      | none => out := .str "IndexError" :: out
+      | some (x, q') => q := q'; out := Json.arr #[num x.1, num x.2] :: out
+    | .arr #[.str "peek"] =>
+      match q.peek? due with
+      | none => out := .str "IndexError" :: out
+      | some x => out := Json.arr #[num x.1, num x.2] :: out
+    | .arr #[.str "len"] => out := num q.length :: out
+    | .arr #[.str "remove", p] =>
+      let pv ← p.getInt?
+      let (b, q') := q.remove (fun x => x.1 == pv)
+      q := q'; out := .bool b :: out
+    | .arr #[.str "clear"] => q := q.clear; out := .null :: out
+    | _ => throw s!"bad pq op {o.compress}"
+  pure out.reverse
+
+
+/-! ### periodic scripts
+
+user action of task `pid`: `{"pid": n, "raise_at": [states], "sleep_at": [[state, d]..], "dispose_at": [states]}`;
+it returns `state + 1` unless it raises `p<pid>s<state>`.
+ops: ["periodic", pid, period, state, catch] | ["dispose_at", t, pid] | ["dispose_now", pid] | ["advance_to", t] | ["stop"] -/
+structure UserFn where
+  pid : Nat
+  raiseAt : List Int
+  sleepAt : List (Int × Nat)
+  disposeAt : List Int
+
+def userFnOfJson (j : Json) : Except String UserFn := do
+  let pid ← getNat j "pid"
+  let raiseAt ← (← getArr j "raise_at").mapM (·.getInt?)
+  let disposeAt ← (← getArr j "dispose_at").mapM (·.getInt?)
+  let sleepAt ← (← getArr j "sleep_at").mapM fun p =>
+    match p with
+    | .arr #[a, b] => do pure ((← a.getInt?), (← b.getNat?))
+    | _ => throw "bad sleep_at"
+  pure { pid, raiseAt, sleepAt, disposeAt }
+
+def userF (fns : List UserFn) (pid : Nat) (st : Int) : Per.Tick Int :=
+  match fns.find? (·.pid == pid) with
+  | none => { next := .ok (st + 1) }
+  | some u =>
+    { sleep := ((u.sleepAt.find? (·.1 == st)).map (·.2)).getD 0
+      dispose := u.disposeAt.contains st
+      next := if u.raiseAt.contains st then .error s!"p{pid}s{st}" else .ok (st + 1) }
+
+def perOpOfJson (j : Json) : Except String (Per.Op Int) := do
+  match j with
+  | .arr #[.str "periodic", pid, period, st, .bool c] =>
+    pure (.periodic (← pid.getNat?) (← period.getInt?) (← st.getInt?) c)
+  | .arr #[.str "dispose_at", t, pid] => pure (.disposeAt (← t.getInt?) (← pid.getNat?))
+  | .arr #[.str "dispose_now", pid] => pure (.disposeNow (← pid.getNat?))
+  | .arr #[.str "advance_to", t] => pure (.advanceTo (← t.getInt?))
+  | .arr #[.str "stop"] => pure .stop
+  | _ => throw s!"bad periodic op {j.compress}"
+
+def perOutToJson : Per.Out → Json
+  | .ok => .str "ok"
+  | .raised e => Json.arr #[.str "raised", .str e]
+  | .stuck => .str "stuck"
+
+def handle (op : String) (j : Json) : Except String Json := do
   match op with
+  | "vts_script" =>
+    let ops ← (← getArr j "ops").mapM opOfJson
+    let clock ← getInt j "clock"
+    let bump ← getInt j "bump"
+    let deadlock := (getBool j "as_is_deadlock").toOption.getD false
+    let trueFor ← (do pure ((← getArr j "handler_true").filterMap (fun x => x.getStr?.toOption)) : Except String (List String))
+    let hdflt := (getBool j "handler_default").toOption.getD false
+    let cfg : Cfg := { bump := bump, spinDeadlock := deadlock,
+                       handler := fun e => if trueFor.contains e then !hdflt else hdflt }
+    let (s, outs) := runOps cfg { clock := clock } ops
+    pure (Json.mkObj [
+      ("outs", Json.arr (outs.map outToJson).toArray),
+      ("log", Json.arr (s.log.map fun r => Json.arr #[num r.id, num r.at_]).toArray),
+      ("clock", num s.clock),
+      ("enabled", .bool s.enabled),
+      ("pending", num s.queue.length),
+      ("hlog", Json.arr (s.hlog.map Json.str).toArray)])
+  | "per_script" =>
+    let ops ← (← getArr j "ops").mapM perOpOfJson
+    let fns ← (← getArr j "fns").mapM userFnOfJson
+    let clock ← getInt j "clock"
+    let trueFor ← (do pure ((← getArr j "handler_true").filterMap (fun x => x.getStr?.toOption)) : Except String (List String))
+    let hdflt := (getBool j "handler_default").toOption.getD false
+    let handler : Err → Bool := fun e => if trueFor.contains e then !hdflt else hdflt
+    let (s, outs) := Per.runOps handler (userF fns) { clock := clock } ops
+    pure (Json.mkObj [
+      ("outs", Json.arr (outs.map perOutToJson).toArray),
+      ("log", Json.arr (s.log.map fun r => Json.arr #[num r.pid, num r.at_, num r.st]).toArray),
+      ("clock", num s.clock),
+      ("enabled", .bool s.enabled),
+      ("pending", num s.queue.length),
+      ("hlog", Json.arr (s.hlog.map Json.str).toArray)])
+  | "pq_script" =>
+    pure (Json.arr (← pqScript (← getArr j "ops")).toArray)
   | _ => throw s!"unknown op {op}"
 
 end DrvVts
